@@ -135,14 +135,25 @@ pub struct StepResult
 }
 
 /* inputs: (name, declared?, content or None when the file does not exist) */
-pub fn evaluate_step(salt : &str, outs : &[OutSpec], inputs : &[(String, bool, Option<Vec<u8>>)]) -> StepResult
+pub fn evaluate_step(salt : &str, outs : &[OutSpec], inputs : &[(String, bool, Option<Vec<u8>>)], step_index : usize) -> StepResult
 {
     for (_name, declared, content) in inputs
     {
         match content
         {
             None => if *declared { return StepResult { code : 1, writes : vec![], skipped : vec![] }; },
-            Some(c) => if c.starts_with(b"!FAIL") { return StepResult { code : 1, writes : vec![], skipped : vec![] }; },
+            Some(c) =>
+            {
+                // "!FAILSTEP:<k> ..." makes only script line k of the command fail (a failing line followed or preceded
+                // by succeeding ones); "!FAIL..." makes every line fail
+                if c.starts_with(b"!FAILSTEP:")
+                {
+                    let rest = String::from_utf8_lossy(&c[10..]).to_string();
+                    let k : usize = rest.split_whitespace().next().unwrap_or("0").parse().unwrap_or(0);
+                    if k == step_index { return StepResult { code : 1, writes : vec![], skipped : vec![] }; }
+                }
+                else if c.starts_with(b"!FAIL") { return StepResult { code : 1, writes : vec![], skipped : vec![] }; }
+            },
         }
     }
 
@@ -212,7 +223,7 @@ fn output(code : i32, err : &str) -> CommandLineOutput
 }
 
 /* The interpreter: executes one script line against VSys, as a separate process would. */
-pub fn run_script_line(sys : &VSys, line : &str) -> CommandLineOutput
+pub fn run_script_line(sys : &VSys, line : &str, step_index : usize) -> CommandLineOutput
 {
     let tokens : Vec<&str> = line.split_whitespace().collect();
     if tokens.len() < 2 || tokens[0] != "vgen"
@@ -243,7 +254,7 @@ pub fn run_script_line(sys : &VSys, line : &str) -> CommandLineOutput
         inputs.push((name.to_string(), declared, content));
     }
 
-    let result = evaluate_step(salt, &outs, &inputs);
+    let result = evaluate_step(salt, &outs, &inputs, step_index);
     if result.code != 0
     {
         return output(result.code, "failed");
@@ -461,9 +472,9 @@ pub fn evaluate(rules : &[GRule], goal : &Option<String>, files : &BTreeMap<Stri
         let mut failed = false;
         let mut skipped = vec![];
         let mut outs : BTreeMap<String, (Vec<u8>, bool)> = BTreeMap::new();
-        for step in r.steps()
+        for (step_index, step) in r.steps().into_iter().enumerate()
         {
-            let result = evaluate_step(&r.salt, &step, &inputs);
+            let result = evaluate_step(&r.salt, &step, &inputs, step_index);
             if result.code != 0 { failed = true; }
             skipped.extend(result.skipped);
             for (p, b, x) in result.writes { outs.insert(p, (b, x)); }
